@@ -33,6 +33,8 @@ type Oracle struct {
 	view map[uint64]*specView
 	// C12: what each host said about its persisted logs in its last report that carried the list
 	hostLog map[string]map[[2]uint64]int
+	// Also: signature -> further properties a finding with that signature is raised for
+	Also map[string][]string
 }
 
 type specView struct {
@@ -51,6 +53,11 @@ func (o *Oracle) fail(prop, clause, sig, what string, idx int) {
 	ops := make([]Op, len(o.Ops))
 	copy(ops, o.Ops)
 	o.Run.Violate(hx.Violation{Property: prop, Clause: clause, Signature: sig, What: what, Seq: o.Seq, OpIndex: idx, Ops: ops})
+	// findings that other properties rest on in the harness at hand (e.g. the scheduler's decisions rest on the liveness
+	// record): raised for them as well
+	for _, p := range o.Also[sig] {
+		o.Run.Violate(hx.Violation{Property: p, Clause: "decision_input_" + clause, Signature: sig, What: what, Seq: o.Seq, OpIndex: idx, Ops: ops})
+	}
 }
 
 func kvRec(d *Dump, k string) (*pb.KV, []byte) {
